@@ -33,6 +33,36 @@ def ca_setup(I):
     return {'request': request, 'response': response, 'realm': realm, 'users': users}
 
 
+class UsersCallable(VModel):
+    """the two documented callable forms of the `users` argument: a zero-argument callable returning the dict (calling it with a
+    name raises nothing relevant), or a legacy callable taking the user name and returning that user's password or None (calling it
+    without arguments raises TypeError).  `table` is the ghost user table both forms stand for."""
+    py_types = ('Callable',)
+
+    def __init__(self, mode, table):
+        self.mode, self.table = mode, table
+
+    def call(self, I, args, kw):
+        if self.mode == 'returns_dict':
+            if args:
+                raise Unsupported('users(name) on the dict-returning form')
+            return self.table
+        if not args:
+            lib.raise_(I, 'TypeError', VStr("missing 1 required positional argument: 'username'"))
+        name = lib.unopt(I, args[0])
+        cover(I, 'lookup_callable')
+        return VOpt(z3.Not(z3.Select(self.table.dom, name.t)), VStr(z3.Select(self.table.vals[0], name.t)), Str)
+
+
+def ca_setup_callable(mode):
+    def setup(I):
+        a = ca_setup(I)
+        I.st.ghost['TABLE'] = a['users']
+        a['users'] = UsersCallable(mode, a['users'])
+        return a
+    return setup
+
+
 def s_parseAuthorization(I, recv, args, kw):
     """contract of _httpauth.parseAuthorization: None, an exception, or a map with 'username' and 'auth_scheme'"""
     c = I.st.choice(3, 'parse')
@@ -79,7 +109,7 @@ def ca_post(I, outcome, ctx):
     if not isb:
         return
     ah = I.st.ghost['AH']
-    users = a['users']
+    users = I.st.ghost.get('TABLE', a['users'])
     if ah is None or 'CHECKED' not in I.st.ghost:
         I.oblige('ensures.true_only_if_verified', z3.Not(v.t))
         return
@@ -108,19 +138,20 @@ cases = [('Digest username="bob"', 'malformed digest (missing fields)'),
 import hashlib
 def md5(x): return hashlib.md5(x.encode()).hexdigest()
 resp = md5(md5('mallory:r:None') + ':n:' + md5('GET:/'))
-for hdr, what in cases:
+forms = [('dict', users), ('callable returning the dict', lambda: users), ('callable(username) -> password or None', lambda name: users.get(name))]
+for (hdr, what), (form, table) in [(c, f) for c in cases for f in forms]:
     if '%s' in hdr: hdr = hdr % resp
     req = Req(); req.headers = H(Authorization=hdr); req.method = 'GET'; req.login = None
     res = Req(); res.headers = H()
     tools.httperror = lambda *a, **k: object()
     try:
-        r = tools.check_auth(req, res, 'r', users)
+        r = tools.check_auth(req, res, 'r', table)
     except Exception as e:
         continue
     if r is not True and r is not False:
-        bad.append('%s: check_auth returned %r (truthy non-bool => basic_auth/digest_auth let the request through)' % (what, r))
+        bad.append('[users as %s] %s: check_auth returned %r (truthy non-bool => basic_auth/digest_auth let the request through)' % (form, what, r))
     elif r is True:
-        bad.append('%s: authenticated as %r' % (what, req.login))
+        bad.append('[users as %s] %s: authenticated as %r' % (form, what, req.login))
 for b in bad: print(b)
 sys.exit(1 if bad else 0)
 '''
@@ -138,6 +169,18 @@ SPECS.append(FucSpec(
     clause='check_auth returns exactly True or False; True iff the Authorization header parses, its user is in the table and '
            'the credentials verify against that entry; login recorded',
 ))
+
+
+for _mode, _nm in (('returns_dict', 'users = callable returning the dict'), ('lookup', 'users = callable(username) -> password or None')):
+    SPECS.append(FucSpec(
+        'C20', 'circuits/web/tools.py', 'check_auth', ca_setup_callable(_mode), ca_post, name='check_auth[%s]' % _nm,
+        fields={'method': Str, 'login': Any},
+        calls={'_httpauth.parseAuthorization': s_parseAuthorization, '_httpauth.checkResponse': s_checkResponse,
+               'httperror': lambda I, r, a, k: VCons('httperror', a)},
+        env=dict(TOOLS_ENV, Callable=VClass('Callable')), attr_hooks={'request.headers': lambda I: I.st.ghost['HDRS']},
+        cover=['return', 'checkResponse'] + (['lookup_callable'] if _mode == 'lookup' else []), replay=ca_replay,
+        clause='check_auth with the callable forms of the user table: same contract (True iff the user has an entry and the '
+               'credentials verify against it; None never reaches the digest computation)'))
 
 
 # ----------------------------------------------------------------------------- basic_auth / digest_auth
